@@ -19,7 +19,8 @@ def reset():
 class _Thread:
     @property
     def global_num(self):
-        return _state['thread']
+        # a fresh int object on every read, as gdb's C layer returns it (CPython shares int objects only up to 256)
+        return int(str(_state['thread']))
 
 
 def selected_thread():
